@@ -8,12 +8,12 @@
 (*   ("single": call a child, wait for it, then the next; "group": call    *)
 (*   all children, then wait for all).                                     *)
 (***************************************************************************)
-EXTENDS Naturals, Sequences, FiniteSets, TLC
+EXTENDS Naturals, Sequences, FiniteSets, TLC, SequencesExt
 
-CONSTANTS Trees, Slots          \* Trees: set of [n |-> N, children |-> [1..N -> Seq(1..N)], kind |-> [1..N -> STRING]]
+CONSTANTS Trees, Slots, AllowStop          \* Trees: set of [n |-> N, children |-> [1..N -> Seq(1..N)], kind |-> [1..N -> STRING]]
 
-VARIABLES tree, st, called, got, queue, threads, waiting
-vars == <<tree, st, called, got, queue, threads, waiting>>
+VARIABLES tree, st, called, got, queue, threads, waiting, stopped
+vars == <<tree, st, called, got, queue, threads, waiting, stopped>>
 
 Nodes == 1..tree.n
 Kids(i) == tree.children[i]
@@ -25,7 +25,7 @@ Init == /\ tree \in Trees
         /\ called = [i \in 1..tree.n |-> 0]        \* how many children were submitted
         /\ got = [i \in 1..tree.n |-> 0]           \* how many child results were consumed
         /\ queue = <<1>>
-        /\ threads = {} /\ waiting = {}
+        /\ threads = {} /\ waiting = {} /\ stopped = FALSE
 
 \* wait graph (derived): i waits on the children it called and whose result it has not got yet
 WaitsOn(i) == IF i \in waiting THEN {Kids(i)[k] : k \in (got[i] + 1)..called[i]} ELSE {}
@@ -35,16 +35,17 @@ Busy == Cardinality(threads \ waiting)
 
 \* runner loop: claim one invocation (blocking ones first, else the queue head) when a slot is free
 Claim(i) ==
+  /\ ~stopped
   /\ Busy < Slots
   /\ Avail(i)
   /\ IF Blocking # {} THEN i \in Blocking ELSE (queue # <<>> /\ i = Head(queue))
   /\ st' = [st EXCEPT ![i] = "running"]
   /\ threads' = threads \cup {i}
   /\ queue' = IF queue # <<>> /\ i = Head(queue) THEN Tail(queue) ELSE queue
-  /\ UNCHANGED <<tree, called, got, waiting>>
+  /\ UNCHANGED <<tree, called, got, waiting, stopped>>
 \* a queued message whose invocation is not available any more is dropped by the poll
 Drop == /\ queue # <<>> /\ ~Avail(Head(queue)) /\ queue' = Tail(queue)
-        /\ UNCHANGED <<tree, st, called, got, threads, waiting>>
+        /\ UNCHANGED <<tree, st, called, got, threads, waiting, stopped>>
 
 CanCall(i) ==
   /\ st[i] = "running" /\ i \in threads /\ called[i] < Len(Kids(i))
@@ -55,7 +56,7 @@ Call(i) ==
      /\ st' = [st EXCEPT ![c] = "registered"]
      /\ queue' = Append(queue, c)
   /\ called' = [called EXCEPT ![i] = @ + 1]
-  /\ UNCHANGED <<tree, got, threads, waiting>>
+  /\ UNCHANGED <<tree, got, threads, waiting, stopped>>
 
 NeedsResult(i) ==
   /\ st[i] = "running" /\ i \in threads /\ got[i] < called[i]
@@ -65,26 +66,46 @@ Get(i) ==
   /\ NeedsResult(i) /\ Final(Kids(i)[got[i] + 1])
   /\ got' = [got EXCEPT ![i] = @ + 1]
   /\ waiting' = waiting \ {i}
-  /\ UNCHANGED <<tree, st, called, queue, threads>>
+  /\ UNCHANGED <<tree, st, called, queue, threads, stopped>>
 Wait(i) ==
   /\ NeedsResult(i) /\ ~Final(Kids(i)[got[i] + 1]) /\ i \notin waiting
   /\ waiting' = waiting \cup {i}
-  /\ UNCHANGED <<tree, st, called, got, queue, threads>>
+  /\ UNCHANGED <<tree, st, called, got, queue, threads, stopped>>
 
 Finish(i) ==
   /\ st[i] = "running" /\ i \in threads
   /\ called[i] = Len(Kids(i)) /\ got[i] = called[i]
   /\ st' = [st EXCEPT ![i] = "done"]
   /\ threads' = threads \ {i} /\ waiting' = waiting \ {i}
-  /\ UNCHANGED <<tree, called, got, queue>>
+  /\ UNCHANGED <<tree, called, got, queue, stopped>>
+
+\* stop request: the loop claims nothing any more; _on_stop kills-and-reroutes every tracked thread
+\* (the invocation goes back to the queue) and then JOINS the thread - a thread ends only by itself
+Stop ==
+  /\ AllowStop /\ ~stopped /\ stopped' = TRUE
+  /\ st' = [i \in 1..tree.n |-> IF i \in threads /\ st[i] = "running" THEN "registered" ELSE st[i]]
+  /\ queue' = queue \o SetToSeq({i \in threads : st[i] = "running"})
+  /\ UNCHANGED <<tree, called, got, threads, waiting>>
+\* a killed thread keeps executing its body: results it waits for never come if nobody runs the child
+KilledThreadEnds(i) ==
+  /\ stopped /\ i \in threads
+  /\ called[i] = Len(Kids(i)) /\ got[i] = called[i]
+  /\ threads' = threads \ {i} /\ waiting' = waiting \ {i}
+  /\ UNCHANGED <<tree, st, called, got, queue, stopped>>
+KilledThreadGets(i) ==
+  /\ stopped /\ i \in threads /\ got[i] < called[i] /\ Final(Kids(i)[got[i] + 1])
+  /\ got' = [got EXCEPT ![i] = @ + 1]
+  /\ UNCHANGED <<tree, st, called, queue, threads, waiting, stopped>>
 
 Next == \/ \E i \in Nodes : Claim(i) \/ Call(i) \/ Get(i) \/ Wait(i) \/ Finish(i)
-        \/ Drop
+        \/ \E i \in Nodes : KilledThreadEnds(i) \/ KilledThreadGets(i)
+        \/ Drop \/ Stop
 Spec == Init /\ [][Next]_vars
 FairSpec == Spec /\ WF_vars(Next)
 
 \* not a property: a thread that stops waiting is busy again although its slot was given away meanwhile
+StopCompletesModel == stopped ~> (threads = {})      \* run() returns: every thread joined
 SlotsRespectedWhileClaiming == [][\A i \in Nodes : (st[i] # "running" /\ st'[i] = "running") => Busy < Slots]_vars
-RootCompletes == <>(st[1] = "done")
+RootCompletes == <>(st[1] = "done" \/ stopped)
 AllDoneAtEnd == [](st[1] = "done" => \A i \in Nodes : st[i] \in {"done", "none"})
 =============================================================================
